@@ -82,6 +82,28 @@ CHECKS = [
         "note": "Trusts vf/ref/styles.py (docstrings + glossary 'descendant'), the framing decoder in c20.py and "
                 "Pillow for JPEG quantisation tables; single-inheritance trees only.",
     },
+    {
+        "property_id": "C09",
+        "technique": "differential testing of paired cached/uncached iterators over generated operation histories",
+        "text": "The C08 op histories are run on two iterators over identical instrumented renderables (caching off vs "
+                "cache in {True, n-1, n, n+1}); frames, exceptions and loop values must agree at every step, and the "
+                "render log of the cached one must contain no second render of a frame within a settings epoch. "
+                "ImageIterator(cached=False) vs cached on two images of the same animated file with next/seek/size "
+                "change/terminal resize/close histories are compared the same way.",
+        "note": "A padding change counts as a settings change for the no-second-render clause (lenient reading of the "
+                "property); instrumented renderables are the harness's own (the library has no concrete Renderable).",
+    },
+    {
+        "property_id": "C10",
+        "technique": "stateful property-based testing with fault injection into the k-th frame render; finalize-call counting on an instrumented render class",
+        "text": "Generated histories (render, str, draw still/animated incl. size-validation failures, iterators from "
+                "all three constructors incl. caller-owned data, next/seek/close/drop+gc, explicit finalize, faults "
+                "RenderError/Exception/StopIteration/KeyboardInterrupt at the k-th render) run on a renderable whose "
+                "class registers every RenderData and counts _finalize_render_data_ calls; after every operation the "
+                "exactly-once / never-used-after / caller-ownership / closed-iterator invariants are checked.",
+        "note": "Finalization on failure is required as soon as the failing call has raised, not at garbage collection "
+                "(the registry holds strong references, so the __del__ fallback does not mask a missing finalize).",
+    },
 ]
 
 NOT_APPLICABLE = [
